@@ -507,9 +507,9 @@ type ExprStmt struct {
 func (n ExprStmt) String() string {
 	val := n.Value.String()
 	if val[0] == '(' && val[len(val)-1] == ')' {
-		return "Stmt" + n.Value.String()
+		return "Stmt" + val
 	}
-	return "Stmt(" + n.Value.String() + ")"
+	return "Stmt(" + val + ")"
 }
 
 // JS writes JavaScript to writer.
